@@ -18,6 +18,7 @@ import (
 	"os"
 	"path/filepath"
 	"reflect"
+	"runtime"
 	"regexp"
 	"regexp/syntax"
 	"sort"
@@ -147,6 +148,8 @@ func stepDesc(s runner.Step) map[string]any {
 		p, active := x.VerifParent()
 		d["active"] = active
 		d["parent"] = stepDesc(p)
+	case *runner.StepOutputValidationRule:
+		d["validator"] = runtime.FuncForPC(reflect.ValueOf(x.VerifValidator()).Pointer()).Name()
 	case *runner.StepAmalgamated:
 		var subs []any
 		for _, q := range x.VerifSubSteps() {
@@ -201,6 +204,40 @@ func dumpConsts() {
 		wiring[fmt.Sprintf("params=%v,services=%v", fl[0], fl[1])] = steps
 	}
 	res["wiring"] = wiring
+	chain := func(id string) []any {
+		svc, err := cmd.VerifService(id)
+		if err != nil {
+			panic(err)
+		}
+		var out []any
+		for _, st := range svc.(interface{ VerifStrategies() []any }).VerifStrategies() {
+			d := map[string]any{"type": fmt.Sprintf("%T", st)}
+			if f, ok := st.(interface{ VerifFixed() (string, string) }); ok {
+				id, v := f.VerifFixed()
+				d["id"], d["value"] = id, v
+			}
+			out = append(out, d)
+		}
+		return out
+	}
+	res["argResolver"] = chain("argResolver")
+	res["primitiveArgResolver"] = chain("primitiveArgResolver")
+	res["tokenStrategyFactory"] = chain("tokenStrategyFactory")
+	{
+		svc, err := cmd.VerifService("compiler")
+		if err != nil {
+			panic(err)
+		}
+		var out []any
+		for _, st := range svc.(interface{ VerifSteps() []any }).VerifSteps() {
+			out = append(out, fmt.Sprintf("%T", st))
+		}
+		res["compilerSteps"] = out
+	}
+	{
+		// which resolver the param resolver wraps: ResolveParam must go through primitiveArgResolver
+		res["paramResolverNote"] = "paramResolver wraps the service primitiveArgResolver (gontainer_resolvers.yaml); its chain is dumped above"
+	}
 	enc := json.NewEncoder(os.Stdout)
 	enc.SetEscapeHTML(false)
 	enc.SetIndent("", " ")
